@@ -48,7 +48,8 @@ def plan(tier, seed):
     rng = P.rng("gm")
     for i in range(220 if quick else 3000):
         g = pick(rng, ["none", "l1", "l2", "box"])
-        P.add("gm", n=int(rng.integers(2, 9)), cplx=bool(g != "box" and rng.random() < 0.5),
+        P.add("gm", n=int(rng.integers(2, 9)) if i % 6 else int(rng.integers(16, 41)),
+              cplx=bool(g != "box" and rng.random() < 0.5),
               g=g, cond=pick(rng, ["well", "well", "ill"]), frac=pick(rng, [1.0, 0.999, 0.5]),
               acc=bool(rng.random() < 0.5), iters=int(pick(rng, [30, 100, 200])),
               x0=pick(rng, ["zero", "rand"]))
@@ -65,7 +66,9 @@ def plan(tier, seed):
     rng = P.rng("pdhg")
     for i in range(260 if quick else 3500):
         g = pick(rng, ["none", "l1", "l2", "box"])
-        P.add("pdhg", n=int(rng.integers(2, 8)), m=int(rng.integers(2, 10)),
+        big = i % 6 == 5               # size-dependent regime: 16..40 unknowns / rows
+        P.add("pdhg", n=int(rng.integers(16, 41) if big else rng.integers(2, 8)),
+              m=int(rng.integers(16, 41) if big else rng.integers(2, 10)),
               cplx=bool(g != "box" and rng.random() < 0.5), g=g,
               steps=pick(rng, ["scalar", "scalar", "array"]),
               frac=pick(rng, [1.0, 0.9, 0.5]), ratio=float(10 ** rng.uniform(-1, 1)),
